@@ -1014,6 +1014,10 @@ def srs(
     wn = 2 * pi * freq
     LF = len(freq)
     sig = np.atleast_1d(sig)
+    if sig.dtype.kind in "iub":
+        # integer records: work in double precision (unsigned or
+        # narrow types would wrap around in ``sig - sig[0]``)
+        sig = sig.astype(float)
     if sig.ndim == 1:
         oneD = True
         sig = sig.reshape(-1, 1)
